@@ -390,6 +390,9 @@ func logJSON(l *evLog, full bool) []interface{} {
 // same prior destination under each schedule (stream capacity, delays, overlap window, GOMAXPROCS).
 func hSync(o Op) map[string]interface{} {
 	scheds := o.arr("schedules")
+	if opt, ok := o["opt"].(map[string]interface{}); ok && Op(opt).boolean("unpriv") {
+		return runUnprivSync(o)
+	}
 	if len(scheds) == 0 {
 		return syncOnce(o, nil)
 	}
